@@ -4,6 +4,7 @@
 // feature agree with the stored values under the documented encodings, missing cells are NaN / -1, targets equal the
 // stored target, and the column bookkeeping is consistent.
 // config: f=<kinds of the input features>;n=<samples>;cls=<classes of 's' features>;rep=<1: sample list reversed with a repetition>;bad=<1: labels of 's' features range over [-70000,70000]>
+//   gen=product: the pairwise product generator is added too; kind E = float32 with concrete decimal values
 //   kinds: a int8, b uint16, c int32, d int64, e float32, r float64, s single-label (cls classes), m multi-label (3 labels)
 #include "sbv.h"
 #include <cmath>
@@ -11,6 +12,7 @@
 #include <nano/dataset.h>
 #include <nano/datasource.h>
 #include <nano/generator/elemwise_identity.h>
+#include <nano/generator/pairwise_product.h>
 
 using namespace nano;
 
@@ -60,6 +62,7 @@ struct symstore_t final : datasource_t
                     iv = bad ? sbv_range("label", -70000, 70000) : sbv_range("label", 0, classes - 1);
                     break;
                 case 'm': iv = sbv_range("hits", 0, 7); break;
+                case 'E': dv = static_cast<double>(0.1F * static_cast<float>(3 * s + static_cast<tensor_size_t>(f) + 1)); break; // concrete float32 decimals
                 case 'e':
                 {
                     float v;
@@ -94,7 +97,8 @@ struct symstore_t final : datasource_t
             case 'b': fs.push_back(feature_t{name}.scalar(feature_type::uint16)); break;
             case 'c': fs.push_back(feature_t{name}.scalar(feature_type::int32)); break;
             case 'd': fs.push_back(feature_t{name}.scalar(feature_type::int64)); break;
-            case 'e': fs.push_back(feature_t{name}.scalar(feature_type::float32)); break;
+            case 'e':
+            case 'E': fs.push_back(feature_t{name}.scalar(feature_type::float32)); break;
             case 'r': fs.push_back(feature_t{name}.scalar(feature_type::float64)); break;
             case 's': fs.push_back(feature_t{name}.sclass(static_cast<size_t>(classes))); break;
             default: fs.push_back(feature_t{name}.mclass(static_cast<size_t>(3))); break;
@@ -116,7 +120,7 @@ struct symstore_t final : datasource_t
                     for (tensor_size_t c = 0; c < 3; ++c) t(c) = static_cast<int8_t>((iv >> c) & 1);
                     set(s, fi, t);
                 }
-                else if (k == 'e') set(s, fi, static_cast<float>(dv));
+                else if (k == 'e' || k == 'E') set(s, fi, static_cast<float>(dv));
                 else if (k == 'r') set(s, fi, dv);
                 else if (k == 's' && bad)
                 {
@@ -167,6 +171,9 @@ extern "C" void sbv_harness(const char*)
     ds.add<mclass_identity_generator_t>();
     ds.add<scalar_identity_generator_t>();
     ds.add<struct_identity_generator_t>();
+    // gen=product: additionally the pairwise product of the scalar features ("product features are the product of their two sources")
+    const bool with_products = sbv_cfg_is("gen", "product");
+    if (with_products) ds.add<pairwise_product_generator_t>();
 
     indices_t samples(n);
     for (tensor_size_t i = 0; i < n; ++i) samples(i) = i;
@@ -178,7 +185,24 @@ extern "C" void sbv_harness(const char*)
     }
     const auto m = samples.size();
 
-    sbv_check(ds.features() == static_cast<tensor_size_t>(kinds.size()), "one dataset feature per input feature");
+    const auto nk = static_cast<tensor_size_t>(kinds.size());
+    sbv_check(ds.features() == (with_products ? nk + nk * (nk + 1) / 2 : nk), "one dataset feature per input feature (plus one product feature per unordered pair of scalar features)");
+    // value of a stored scalar cell as the library sees it: converted from its STORAGE type to scalar_t
+    auto stored = [&](size_t su, size_t k)
+    {
+        const auto iv = src.I[su][k];
+        const auto dv = src.D[su][k];
+        switch (kinds[k])
+        {
+        case 'a': return static_cast<double>(static_cast<int8_t>(iv));
+        case 'b': return static_cast<double>(static_cast<uint16_t>(iv));
+        case 'c': return static_cast<double>(static_cast<int32_t>(iv));
+        case 'd': return static_cast<double>(iv);
+        case 'e':
+        case 'E': return static_cast<double>(static_cast<float>(dv));
+        default: return dv;
+        }
+    };
     auto storage_of = [&](tensor_size_t i) { return static_cast<size_t>(std::atol(ds.feature(i).name().c_str() + 1)); };
 
     tensor2d_t fbuf;
@@ -188,6 +212,29 @@ extern "C" void sbv_harness(const char*)
     tensor_size_t col = 0;
     for (tensor_size_t i = 0; i < ds.features(); ++i)
     {
+        if (ds.feature(i).name().rfind("product(", 0) == 0)
+        {
+            // "product(f<A>,f<B>)"
+            const auto&  nm = ds.feature(i).name();
+            const size_t ka = static_cast<size_t>(std::atol(nm.c_str() + 9));
+            const size_t kb = static_cast<size_t>(std::atol(nm.c_str() + nm.find(',') + 2));
+            sbv_check(ds.column2feature(col) == i, "column -> feature map is consistent with the column blocks");
+            scalar_mem_t buf;
+            const auto   v = ds.select(samples, i, buf);
+            for (tensor_size_t r = 0; r < m; ++r)
+            {
+                const auto su = static_cast<size_t>(samples(r));
+                if (src.G[su][ka] != 0 && src.G[su][kb] != 0)
+                {
+                    const double expected = stored(su, ka) * stored(su, kb);
+                    sbv_check(v(r) == expected, "select(product feature) = product of its two sources converted to scalar_t (symbolic values, mixed storage types)");
+                    sbv_check(flat(r, col) == expected, "flatten(product feature) column = product of its two sources (symbolic values, mixed storage types)");
+                }
+                else sbv_check(isnan_(v(r)) & isnan_(flat(r, col)), "product feature is missing (NaN in both views) when one of its sources is missing");
+            }
+            col += 1;
+            continue;
+        }
         const auto k    = storage_of(i);
         const char kind = kinds[k];
         const auto cols = kind == 's' ? cls - 1 : kind == 'm' ? 3 : 1;
@@ -233,7 +280,7 @@ extern "C" void sbv_harness(const char*)
             {
                 scalar_mem_t buf;
                 const auto   v = ds.select(samples, i, buf);
-                const double expected = (kind == 'e' || kind == 'r') ? dv : static_cast<double>(iv);
+                const double expected = (kind == 'e' || kind == 'E' || kind == 'r') ? dv : static_cast<double>(iv);
                 if (given)
                 {
                     sbv_check(v(r) == expected, "select(scalar) returns the stored value converted to scalar_t (symbolic value, every storage type)");
